@@ -293,8 +293,15 @@ pub fn spec_bin(op: B, a: &V, b: &V) -> Spec {
         },
         Atan2 => {
             let numeric = |v: &V| matches!(v, Val::Int(_) | Val::Float(_) | Val::Bool(_));
+            let fl = |v: &V| match v {
+                Val::Int(x) => *x as f64,
+                Val::Float(x) => *x,
+                Val::Bool(x) => if *x { 1.0 } else { 0.0 },
+                _ => 0.0,
+            };
             if numeric(a) && numeric(b) {
-                Spec::AnyFloat
+                // f64::atan2 is a tagged, argument-order-sensitive stub in the harness (see U::FloatPrim)
+                Spec::Exact(Val::Float(fl(a).atan2(fl(b))))
             } else {
                 Spec::Error
             }
@@ -329,6 +336,31 @@ pub fn check_bin_scalar(idx: usize, name: &str, op: B, group: u8) {
     let ops = ValOpsFactory::<i32, f64>::make();
     assert!(ops[idx].repr() == name);
     let f = ops[idx].bin().unwrap().apply;
+    run_bin_group(f, op, group);
+    kani::cover!(true, "all cells of the group executed");
+    core::mem::forget(ops);
+}
+
+/// Direct kernel: the private operator function of value.rs that the table entry names (the association
+/// repr -> function identifier is read from the source of `ValOpsFactory::make` before every run; the function is
+/// reached through `verif_hooks::val`), without building the operator table: an order of magnitude cheaper than a
+/// table cell, so the quick tier can afford every operator. The table cells (thorough tier) cover the wiring.
+pub fn check_bin_direct(f: fn(V, V) -> V, op: B, group: u8) {
+    run_bin_group(f, op, group);
+    kani::cover!(true, "all cells of the group executed");
+}
+
+pub fn check_un_direct(f: fn(V) -> V, op: U) {
+    cell_un(f, op, 0);
+    cell_un(f, op, 1);
+    cell_un(f, op, 2);
+    cell_un(f, op, 3);
+    cell_un(f, op, 4);
+    cell_un(f, op, 5);
+    kani::cover!(true, "all 6 cells executed");
+}
+
+fn run_bin_group(f: fn(V, V) -> V, op: B, group: u8) {
     match group {
         0 => {
             cell_bin(f, op, 0, 0);
@@ -364,13 +396,34 @@ pub fn check_bin_scalar(idx: usize, name: &str, op: B, group: u8) {
             cell_bin(f, op, 4, 3);
         }
     }
-    kani::cover!(true, "all cells of the group executed");
-    core::mem::forget(ops);
 }
 
 #[derive(Clone, Copy, PartialEq)]
 pub enum U {
-    Plus, Minus, Abs, Signum, FloatExact(u8), FloatAny, SwapBytes, ToLe, ToBe, Fact, ToInt, ToFloat, Length,
+    Plus, Minus, Abs, Signum, FloatExact(u8), FloatAny, FloatPrim(u8), SwapBytes, ToLe, ToBe, Fact, ToInt, ToFloat, Length,
+}
+
+pub const PRIMS: [&str; 17] = ["sin", "cos", "tan", "asin", "acos", "atan", "sinh", "cosh", "tanh", "asinh", "acosh", "atanh", "exp", "cbrt", "ln", "log10", "log2"];
+fn prim(which: u8, x: f64) -> f64 {
+    match which {
+        0 => x.sin(),
+        1 => x.cos(),
+        2 => x.tan(),
+        3 => x.asin(),
+        4 => x.acos(),
+        5 => x.atan(),
+        6 => x.sinh(),
+        7 => x.cosh(),
+        8 => x.tanh(),
+        9 => x.asinh(),
+        10 => x.acosh(),
+        11 => x.atanh(),
+        12 => x.exp(),
+        13 => x.cbrt(),
+        14 => x.ln(),
+        15 => x.log10(),
+        _ => x.log2(),
+    }
 }
 
 fn fact_table(n: i32) -> Option<i32> {
@@ -420,6 +473,13 @@ pub fn spec_un(op: U, a: &V) -> Spec {
         },
         U::FloatAny => match a {
             Val::Float(_) => Spec::AnyFloat,
+            _ => Spec::Error,
+        },
+        // the primitive is replaced by a tagged stub in the harness (Kani has no model of most of libm), so the
+        // oracle's call below resolves to the same deterministic, primitive-specific function: the cell proves that
+        // the operator applies exactly this primitive to the payload
+        U::FloatPrim(which) => match a {
+            Val::Float(x) => Spec::Exact(Val::Float(prim(which, *x))),
             _ => Spec::Error,
         },
         U::SwapBytes | U::ToLe | U::ToBe => match a {
